@@ -31,7 +31,9 @@ def array2d_getitem_contract(it, args, kwargs):
 def mk_frame(h, w, tag=""):
     hz = OBJ(A, "BoolArray2D", shape=(h + 1, w), data=slist(tag + "hz", "ref", (h + 1) * w))
     vt = OBJ(A, "BoolArray2D", shape=(h, w + 1), data=slist(tag + "vt", "ref", h * (w + 1)))
-    fr = OBJ(GF, "BoolGridFrame", solver=None, height=h, width=w, horizontal=hz, vertical=vt)
+    # built by the real constructor (with explicit arrays it never touches the solver), so whatever
+    # state __init__ sets up is there
+    fr = construct(CLS(GF, "BoolGridFrame"), None, h, w, hz, vt)
     return fr, hz, vt
 
 
@@ -189,6 +191,16 @@ def all_edges_order(case):
     check("count", length(data) == nh + nv)
     check("horizontal-first", forall_range(nh, lambda k: same(raw_item(data, k), raw_item(attr(hz, "data"), k))))
     check("then-vertical", forall_range(nv, lambda k: same(raw_item(data, nh + k), raw_item(attr(vt, "data"), k))))
+    # a second traversal of the same frame sees the same edges (history)
+    o2 = call(REAL(GF, "BoolGridFrame.all_edges"), fr)
+    check("second-traversal-no-exception", not o2.raised)
+    if not o2.raised:
+        d2 = attr(o2.value, "data")
+        if check("second-traversal-same-count", length(d2) == nh + nv):
+            check("second-traversal-same-edges", forall_range(nh + nv, lambda k: same(raw_item(d2, k), raw_item(data, k))))
+    o3 = call(lambda: mklist(list(interp().iterate(interp().call(interp().getattr(fr, "__iter__"), [], {})) or [])) if modelled() and CTX.mode != "sym" else (None if modelled() else list(fr)))
+    if not modelled():
+        check("iteration-after-all_edges-sees-every-edge", not o3.raised and len(o3.value) == nh + nv)
 
 
 FGF = GR + "::_from_grid_frame"
